@@ -146,7 +146,7 @@ func (e *env08) makeUnits(n int) ([]string, error) {
 	ids := make([]string, n)
 	errs := make([]error, n)
 	var wg sync.WaitGroup
-	sem := make(chan struct{}, 8)
+	sem := make(chan struct{}, 12)
 	for i := 0; i < n; i++ {
 		wg.Add(1)
 		go func(i int) {
@@ -1489,6 +1489,8 @@ func cmdC08(args []string) {
 	sort.Slice(pairs, func(i, j int) bool {
 		return strings.Join(pairs[i].A, ",")+"|"+strings.Join(pairs[i].B, ",") < strings.Join(pairs[j].A, ",")+"|"+strings.Join(pairs[j].B, ",")
 	})
+	// a seeded order, so that a run cut short by the time budget still covers a different sample for every seed
+	rand.New(rand.NewSource(*seed)).Shuffle(len(pairs), func(i, j int) { pairs[i], pairs[j] = pairs[j], pairs[i] })
 	dir := filepath.Join(*work, "c08d")
 	_ = os.RemoveAll(dir)
 	d := ctl.NewDaemon(*bin, dir, "c08node", true, nil,
@@ -1534,6 +1536,12 @@ func cmdC08(args []string) {
 	}
 	// phase 1: every line class, several concrete instances, one per fresh session
 	for _, v := range lines {
+		if res.Counters["violations"] >= 40 {
+			res.note("stopped after %d violations", res.Counters["violations"])
+			res.Distinct = len(e.distinct)
+
+			return
+		}
 		for i := 0; i < *inst; i++ {
 			if err := e.runSingle(v, i); err != nil {
 				res.inconclusive("environment failure at class %s: %v", v.Class.key(), err)
@@ -1566,7 +1574,7 @@ func cmdC08(args []string) {
 	start := time.Now()
 	n := 0
 	for i, sv := range pairs {
-		if *maxPairs > 0 && n >= *maxPairs {
+		if (*maxPairs > 0 && n >= *maxPairs) || res.Counters["violations"] >= 40 {
 			break
 		}
 		if *budget > 0 && time.Since(start) > *budget {
